@@ -143,6 +143,14 @@ CHECKS["C13"] = ("E1-pure + E2-sim",
   "the first failure) must be identical in the receiver's Finished indication, every Finished PDU and the sender's Finished indication.",
   "The model encodes the statuses the repository's tests pin. Names stay inside the root (C12's subject).",
   "DESIGN.md §5 C13")
+CHECKS["C04"] = ("E3-puppet + E2-sim",
+  "exhaustive re-delivery of every previously sent PDU (singles and ordered pairs) by a puppet sender after the receiver's first success, and exhaustive handshake-loss combinations between two real daemons; invariant oracle after the first success",
+  "Puppet family: file transfers and requests-only transactions x Modular/Null checksum x 6 request lists with non-idempotent requests x every single and every ordered pair of late PDUs (Metadata, EOF, both prompts, "
+  "each data segment) delivered while the receiver waits for the ACK of Finished x ACK sent/never x 2 NAK procedures. Real family: ACK(EOF), Finished, ACK(Finished) each lost 0/1/2 times (27 combinations) x sizes x checksum x "
+  "request lists. After the first success: no checksum/size fault indication or Finished PDU, no second success report, identical filestore responses in every Finished PDU, destination == source and the receiver's filestore == "
+  "the model with the requests applied exactly once; a sender reports success only after its receiver did.",
+  "Side effects are compared at the end of the run with the C13 model. Late PDUs arriving after the transaction has ended start a new transaction (C11).",
+  "DESIGN.md §5 C04")
 NOT_YET = {}
 
 def main():
